@@ -84,6 +84,15 @@ def _pattern_test(subject, pat, binds=None):
             _pure_subject(subject):
         binds.append((pat.name, subject))
         return True
+    if isinstance(pat, ast.MatchAs) and pat.pattern is not None and \
+            pat.name is not None and binds is not None and \
+            _pure_subject(subject):
+        # `case P as name`: the test of P, then name bound to the subject
+        t = _pattern_test(subject, pat.pattern, binds)
+        if t is None:
+            return None
+        binds.append((pat.name, subject))
+        return t
     if isinstance(pat, ast.MatchSequence) and isinstance(
             subject, ast.Tuple) and len(pat.patterns) == len(
                 subject.elts) and not any(
